@@ -141,7 +141,20 @@ fn cap_value(c: Option<usize>) -> usize {
     c.map(|x| x.max(16)).unwrap_or(64 * 1024)
 }
 
+/// first pass: every declared size stays at or below 64 MiB, so that an iterator which does not enforce the limit allocates something the
+/// harness can measure and report, instead of asking for 2^56 bytes — a failed allocation aborts the process, which is no verdict
 fn stage_header(i: &Input, c: &mut Case) -> Result<(), String> {
+    header_case(i, c, true)
+}
+
+/// second pass: the whole range of declared sizes up to 2^56-2
+fn stage_header_huge(i: &Input, c: &mut Case) -> Result<(), String> {
+    header_case(i, c, false)
+}
+
+const SAFE_S: u64 = 64 << 20;
+
+fn header_case(i: &Input, c: &mut Case, safe: bool) -> Result<(), String> {
     if !allocstat::active() {
         return Err("harness: counting allocator not installed".into());
     }
@@ -172,6 +185,16 @@ fn stage_header(i: &Input, c: &mut Case) -> Result<(), String> {
             let bits = t.range(1, 55);
             (t.u64() & ((1u64 << bits) - 1)) | (1u64 << (bits - 1))
         }
+    };
+    let s = if safe && s > SAFE_S {
+        if m >= SAFE_S {
+            // the untouched default limit: nothing above it is safe to offer in this pass
+            1 + t.below(1 << 20) as u64
+        } else {
+            *t.pick(&[m + 1, 2 * m + 3, (m + (1 << 16)).min(SAFE_S), 1 << 21, SAFE_S])
+        }
+    } else {
+        s
     };
     // never really allocate more than 4 MiB per case in the harness: sizes within the limit are capped there
     let s = if s <= m && s > (4 << 20) { 1 + t.below(1 << 20) as u64 } else { s };
@@ -362,14 +385,22 @@ fn stage_long(i: &Input, c: &mut Case) -> Result<(), String> {
     Ok(())
 }
 
-pub const STAGES: &[Stage] = &[Stage { name: "header", f: stage_header }, Stage { name: "stream", f: stage_stream }, Stage { name: "long_stream", f: stage_long }];
+pub const STAGES: &[Stage] = &[
+    Stage { name: "header", f: stage_header },
+    Stage { name: "stream", f: stage_stream },
+    Stage { name: "long_stream", f: stage_long },
+    Stage { name: "header_huge", f: stage_header_huge },
+];
 
 pub fn run(rc: &mut RunCtx) {
-    rc.run_pt(STAGES[0], rc.pick(320_000, 1_500_000), (96, 300));
-    rc.run_pt(STAGES[1], rc.pick(320_000, 1_500_000), (96, 500));
+    rc.run_pt(STAGES[0], rc.pick(200_000, 1_000_000), (96, 300));
     rc.run_pt(STAGES[2], rc.pick(16_000, 60_000), (8, 8));
+    // only after the passes in which a limit that is not enforced costs megabytes, not the process
+    rc.run_pt(STAGES[3], rc.pick(200_000, 1_000_000), (96, 300));
+    rc.run_pt(STAGES[1], rc.pick(320_000, 1_500_000), (96, 500));
     for l in ["above_limit_wide_field", "within_limit_payload_missing", "limit_untouched", "inside_known_with_room", "inside_unknown"] {
         rc.require_label("header", l, 20_000);
+        rc.require_label("header_huge", l, 20_000);
     }
     rc.require_label("stream", "stream_declares_more_than_limit", 100_000);
     if !rc.quick() {
